@@ -253,7 +253,9 @@ def run(ctx: Ctx) -> None:
     ctx.check("C18.R7", "run:run", "non-zero worker exit code ends the supervisor loop", len(stop) == 1, "a crashing worker must stop the server instead of being restarted forever", stop[0] if stop else rn)
     pp = repo.func("run", "_populate")
     rng = [n for n in walk_local(pp) if isinstance(n, ast.For)]
-    ok = len(rng) == 1 and norm(rng[0].iter) == "range(config.workers - len(processes))"
+    from ..astq import expand_locals
+
+    ok = len(rng) == 1 and norm(expand_locals(rng[0].iter, pp)) == "range(config.workers - len(processes))"
     pr = [c for c in calls(pp) if call_name(c) == "ctx.Process"]
     ok = ok and len(pr) == 1 and norm(kwarg(pr[0], "target")) == "worker_func" and norm(kwarg(pr[0], "kwargs")) == "{'config': config, 'shutdown_event': shutdown_event, 'sockets': sockets}" and "processes.append(process)" in norm(pp) and "process.start()" in norm(pp)
     ctx.check("C18.R7", "run:_populate", "starts config.workers - len(processes) workers with (config, shutdown_event, sockets)", ok, "worker replacement changed", pp)
